@@ -1830,3 +1830,62 @@ Proof.
   split; [vm_compute; reflexivity|]. split; [vm_compute; reflexivity|]. split; [vm_compute; reflexivity|].
   vm_compute. reflexivity.
 Qed.
+
+(* ---------- comments of any length are insignificant (round 5: seeded change m10) ---------- *)
+
+Lemma c10_lex_go_in_comment : forall c r line tl,
+  Forall (fun ch => ch <> NL) c ->
+  lex_go (c ++ NL :: r) line [] tl true false false = lex_go r (line + 1)%Z [] tl false false false.
+Proof.
+  induction c as [|ch c IH]; intros r line tl Hc.
+  - reflexivity.
+  - inversion Hc as [|x l Hch Hrest]; subst x l.
+    change ((ch :: c) ++ NL :: r) with (ch :: (c ++ NL :: r)).
+    cbn [lex_go].
+    destruct (is_space ch) eqn:Hs.
+    + destruct (ch =? CR) eqn:Hcr.
+      * apply IH; assumption.
+      * assert (Hnl : (ch =? NL) = false) by (apply N.eqb_neq; assumption).
+        rewrite Hnl. apply IH; assumption.
+    + cbn [orb]. apply IH; assumption.
+Qed.
+
+Lemma c10_comment_any_length : forall c r line tl esc,
+  Forall (fun ch => ch <> NL) c ->
+  lex_go (HASH :: c ++ NL :: r) line [] tl false false esc = lex_go (NL :: r) line [] tl false false esc.
+Proof.
+  intros c r line tl esc Hc.
+  transitivity (lex_go r (line + 1)%Z [] tl false false false).
+  - cbn [lex_go]. change (is_space HASH) with false. cbn [orb]. change (HASH =? HASH) with true. cbn [orb].
+    apply c10_lex_go_in_comment; assumption.
+  - reflexivity.
+Qed.
+
+Lemma c10_comment_at_eof : forall c line tl esc,
+  Forall (fun ch => ch <> NL) c ->
+  lex_go (HASH :: c) line [] tl false false esc = [].
+Proof.
+  intros c line tl esc Hc.
+  assert (H : forall c line tl, Forall (fun ch => ch <> NL) c -> lex_go c line [] tl true false false = []).
+  { clear. induction c as [|ch c IH]; intros line tl Hc; [reflexivity|].
+    inversion Hc as [|x l Hch Hrest]; subst x l. cbn [lex_go].
+    destruct (is_space ch) eqn:Hs.
+    - destruct (ch =? CR) eqn:Hcr; [apply IH; assumption|].
+      assert (Hnl : (ch =? NL) = false) by (apply N.eqb_neq; assumption).
+      rewrite Hnl. apply IH; assumption.
+    - cbn [orb]. apply IH; assumption. }
+  cbn [lex_go]. change (is_space HASH) with false. cbn [orb]. change (HASH =? HASH) with true. cbn [orb].
+  apply H; assumption.
+Qed.
+
+(* a 5000-byte comment (longer than any buffer of the reader) after two tokens, then a third token:
+   same tokens, same line numbers as with the bare line break *)
+Lemma c10_comment_witness :
+  Forall (fun ch => ch <> NL) (repeat 120 5000) /\
+  lex (bs "a b #"%string ++ repeat 120 5000 ++ NL :: bs "c"%string) = lex (bs "a b "%string ++ NL :: bs "c"%string) /\
+  map (fun t => (t_line t, t_text t)) (lex (bs "a b #"%string ++ repeat 120 5000 ++ NL :: bs "c"%string)) =
+    [(1%Z, bs "a"%string); (1%Z, bs "b"%string); (2%Z, bs "c"%string)].
+Proof.
+  split; [|split; vm_compute; reflexivity].
+  apply Forall_forall. intros x Hx. apply repeat_spec in Hx. subst x. discriminate.
+Qed.
